@@ -31,9 +31,9 @@ Section MatProofs.
   Lemma same_secret_same_material s1 s2 : s1 = s2 -> material hkdf s1 = material hkdf s2.
   Proof. intros ->. reflexivity. Qed.
 
-  (* assumed about HKDF-SHA256, not proved: 32 bytes of output separate secrets *)
+  (* assumed about HKDF-SHA256, not proved: the 28 bytes of output used as hello-random separate secrets *)
   Definition hkdf_hello_injective : Prop :=
-    forall s1 s2, hkdf s1 label_hello 32 = hkdf s2 label_hello 32 -> s1 = s2.
+    forall s1 s2, hkdf s1 label_hello 28 = hkdf s2 label_hello 28 -> s1 = s2.
 
   Lemma different_secret_different_route :
     hkdf_hello_injective -> forall s1 s2, s1 <> s2 -> hello_random hkdf s1 <> hello_random hkdf s2.
